@@ -7,7 +7,7 @@ set -u
 FILTER="${1:-}"
 LOG=/tmp/sensitivity.log
 : > $LOG
-for d in /verif/selfmut/*${FILTER}*/; do
+for d in "$(cd "$(dirname "$0")/.." && pwd)"/selfmut/*${FILTER}*/; do
   name=$(basename $d); prop=$(cat $d/prop)
   W=/dev/shm/eyecite-sens-$$
   rm -rf $W; mkdir -p $W
@@ -15,7 +15,7 @@ for d in /verif/selfmut/*${FILTER}*/; do
   (cd $W && patch -p1 -s < $d/patch.diff) || { echo "$name PATCH-FAILED" | tee -a $LOG; rm -rf $W; continue; }
   t=$(cd $W && PYTHONPATH=$W timeout 900 /venv/bin/python -m pytest -q -p no:cacheprovider -x 2>&1 | tail -1)
   rm -rf $W
-  out=$(/verif/tools/run_mutant.sh $d/patch.diff $prop quick 2>&1)
+  out=$("$(dirname "$0")/run_mutant.sh" $d/patch.diff $prop quick 2>&1)
   rc=$(echo "$out" | grep -o "exit=[0-9]*" | head -1)
   case $name in ok-*) want="exit=0";; *) want="exit=1";; esac
   verdict=OK; [ "$rc" != "$want" ] && verdict=UNEXPECTED
